@@ -34,7 +34,7 @@ GOLDEN = None
 
 
 def budget(tier):
-    return {"shards": 9 if tier == "quick" else 14, "deadline_s": 45 if tier == "quick" else 900}
+    return {"shards": 14, "deadline_s": 45 if tier == "quick" else 900}
 
 
 def golden():
@@ -218,7 +218,7 @@ def run(ctx):
     if ctx.shard == 0:
         battery(ctx)
         check_golden(ctx, "after DragModel / DragModelMultiBC / zero / fire calls")
-    total = 400 if not thorough else 30000
+    total = 2500 if not thorough else 40000
     for _ in range(ctx.share(total)):
         if not ctx.time_left():
             break
